@@ -459,6 +459,7 @@ func (fc *FuncCtx) callByContract(fr *Frame, st *State, callee *ssa.Function, c 
 				env2.vars["result"] = sv
 			}
 		}
+		bindStructResult(env2.vars, rv, i, v)
 	}
 	for _, en := range c.Ensures {
 		t, err := env2.ElabBool(en.Expr)
